@@ -67,6 +67,8 @@ enum HostFaults {
     AcquireGarbageFirst,
     AttestErrorFirst,
     AttestResetFirst,
+    /// the host latches the key but its reply to the attestation is lost
+    AttestLatchedReplyLost,
 }
 
 #[derive(Clone, Debug, Serialize, Deserialize, Hash)]
@@ -202,6 +204,7 @@ fn prepare(env: &Env, c: &Case, key_dir: &Path) -> Result<(), String> {
             HostFaults::AcquireGarbageFirst => s.acquire_faults.push_back(Fault::Garbage("{\"guid\":".into(), "application/json".into())),
             HostFaults::AttestErrorFirst => s.attest_faults.push_back(err()),
             HostFaults::AttestResetFirst => s.attest_faults.push_back(Fault::Reset),
+            HostFaults::AttestLatchedReplyLost => s.attest_faults.push_back(Fault::ResetAfterCommit),
         }
     });
     Ok(())
@@ -388,7 +391,7 @@ fn main() {
         std::process::exit(0);
     }
     let scenarios = [Scenario::FreshLatch, Scenario::RestartWithKeyOnDisk, Scenario::Rotation, Scenario::LocalKeyTruncated, Scenario::LocalKeyGarbage, Scenario::LocalKeyWrongGuidInside, Scenario::LocalKeyEmpty];
-    let fault_scripts = [HostFaults::None, HostFaults::AcquireErrorFirst, HostFaults::AttestErrorFirst, HostFaults::AcquireGarbageFirst, HostFaults::AttestResetFirst, HostFaults::StatusErrorFirst];
+    let fault_scripts = [HostFaults::None, HostFaults::AttestLatchedReplyLost, HostFaults::AcquireErrorFirst, HostFaults::AttestErrorFirst, HostFaults::AcquireGarbageFirst, HostFaults::AttestResetFirst, HostFaults::StatusErrorFirst];
     let mut plan: Vec<Case> = Vec::new();
     let mut windows: Vec<serde_json::Value> = Vec::new();
     if let Some(path) = &params.replay {
@@ -491,7 +494,7 @@ fn main() {
     stats.extra.insert("windows".into(), serde_json::json!(windows));
     stats.extra.insert("exhaustive_over_kill_points".into(), serde_json::json!(th && params.replay.is_none()));
     let _ = std::fs::remove_dir_all(&work);
-    let rule = "enumeration: scenario in {fresh latch, restart with the key on disk, rotation (the host names a key that is not in the store), local key truncated / garbage / valid JSON of another key / empty} x host-fault script in {none, first status / acquire / attest call fails with an error status, garbage body or reset} x kill point N = the N-th file-system, socket or descriptor-writing syscall (all of %file and %network plus read/write/close/fsync/fcntl/dup/...; the readiness-polling calls are left out) of the real KeyKeeper child (strace inject=...:signal=SIGKILL:when=N), N from the first status poll's connect to three past the last syscall of an uninjected dry run. thorough: every N; quick: a seeded stratified sample of 22 per (scenario, script). oracle in the parent: at the instant an attestation request ARRIVES the file <guid>.key exists, is complete JSON and holds the issued guid and key; after the kill no *.key file is truncated or corrupt (the scenario's own damaged file excepted while untouched); a key the host latched is in the store; a fresh, unkilled agent on that directory performs a signed request that verifies at the host, without requesting a new key when the latched one is in the store. non-trivial: the kill fell between the acquire answer and the attest answer, or the scenario starts from a damaged store; distinct by (scenario, script, N).";
+    let rule = "enumeration: scenario in {fresh latch, restart with the key on disk, rotation (the host names a key that is not in the store), local key truncated / garbage / valid JSON of another key / empty} x host-fault script in {none, first status / acquire / attest call fails with an error status, garbage body or reset, or the host latches the key but its attestation reply is lost} x kill point N = the N-th file-system, socket or descriptor-writing syscall (all of %file and %network plus read/write/close/fsync/fcntl/dup/...; the readiness-polling calls are left out) of the real KeyKeeper child (strace inject=...:signal=SIGKILL:when=N), N from the first status poll's connect to three past the last syscall of an uninjected dry run. thorough: every N; quick: a seeded stratified sample of 22 per (scenario, script). oracle in the parent: at the instant an attestation request ARRIVES the file <guid>.key exists, is complete JSON and holds the issued guid and key; after the kill no *.key file is truncated or corrupt (the scenario's own damaged file excepted while untouched); a key the host latched is in the store; a fresh, unkilled agent on that directory performs a signed request that verifies at the host, without requesting a new key when the latched one is in the store. non-trivial: the kill fell between the acquire answer and the attest answer, or the scenario starts from a damaged store; distinct by (scenario, script, N).";
     let assumptions = ["process death only (SIGKILL at a syscall boundary): no power-loss / fsync reasoning", "the reference secure-channel host on loopback stands for the WireServer", "kill points are syscall boundaries: no externally visible effect lies between two syscalls"];
     stats.write_worker_files(&params.out, &params.prop, rule, &assumptions, t0.elapsed().as_secs_f64());
     std::process::exit(0);
